@@ -349,10 +349,36 @@ LEN_NAMES = ("len", "find", "rfind", "position", "rposition", "valid_up_to", "re
              "trailing_zeros")
 
 
+_VAR_BODY = [None]      # body whose multi-definition locals may be resolved (set around a rule evaluation)
+
+
+def var_const_values(t):
+    """The values of a local with several definitions when every one of them assigns an integer constant
+    (`let spare = if add_slash { 2 } else { 1 }`); None otherwise."""
+    b = _VAR_BODY[0]
+    if b is None or t[0] != "var" or len(t) < 3 or not isinstance(t[2], int):
+        return None
+    vals = []
+    for d in b.defs().get(t[2], []):
+        if d[2] != "assign":
+            return None
+        rv = d[3]["rv"]
+        k_ = rv["op"].get("k") if rv.get("r") == "use" and isinstance(rv.get("op"), dict) else None
+        if not k_ or not isinstance(k_.get("v"), int):
+            return None
+        vals.append(k_["v"])
+    return vals or None
+
+
 def len_leaves(t, acc):
     """Decompose a usize sum into (number of length-like leaves, constant part); None if something else occurs."""
     t = peel(t)
     k = t[0]
+    if k == "var":
+        vals = var_const_values(t)
+        if vals is not None and min(vals) >= 0:
+            acc[1] += max(vals)
+            return True
     if k == "const" and isinstance(t[1], int):
         acc[1] += t[1]
         return True
@@ -368,7 +394,21 @@ def len_leaves(t, acc):
         return len_leaves(t[2], acc) and len_leaves(t[3], acc)
     if k == "cast":
         return len_leaves(t[1], acc)
+    # the index inside `Some(i)` returned by find / rfind / position
+    if k == "field" and t[2] in ("0", 0) and t[1][0] == "variant" and t[1][2] == "Some":
+        inner = peel(t[1][1])
+        if inner[0] == "call" and (inner[3] or {}).get("name") in ("find", "rfind", "position", "rposition") and \
+                (inner[3] or {}).get("krate") in ("core", "std", "alloc"):
+            acc[0] += 1
+            return True
+    # an offset into the value's own buffer (invariant kept by the reviewed writers, R-WHO)
+    if k == "field" and len(t) > 3 and t[2] in OFFSET_FIELDS.get(t[3], ()) and peel(t[1])[0] == "param":
+        acc[0] += 1
+        return True
     return False
+
+
+OFFSET_FIELDS = {"uri::Rsync": ("module_start", "path_start"), "uri::Https": ("path_idx",)}
 
 
 def rule_len_arith(site):
@@ -381,6 +421,7 @@ def rule_len_arith(site):
         return None
     if site.kind != "assert:Overflow:Add" or len(site.ops) != 2:
         return None
+    _VAR_BODY[0] = site.body
     # the operation must be on usize
     tys = [o.get("ty") for o in site.t.get("ops", []) if isinstance(o, dict)]
     acc = [0, 0]
@@ -529,7 +570,10 @@ def skeleton(f, fn):
             if c.krate == "bcder" and re.match(r"^(take_|skip_|from_content|skip_content|capture|content_err|exhausted|decode)", c.name or ""):
                 keep = True
             elif res in f.fns and not is_derived(f.body(res) or b):
-                keep = True
+                # a crate function takes part in acceptance only if it can refuse (Result / Option / bool); a
+                # constructor that returns the value itself cannot
+                out_ty = f.fns[res].get("output") or ""
+                keep = bool(re.match(r"^(std::result::Result<|std::option::Option<|bool$)", out_ty))
             if keep:
                 lab = short(res)
                 for rx, rep in SKEL_NORM:
@@ -895,6 +939,8 @@ def alloc_arg_ok(t):
     k = t[0]
     if k in ("const", "len", "path", "static", "fnref", "cdef"):
         return True
+    if k == "var" and var_const_values(t) is not None:
+        return True
     if k == "cast":
         return alloc_arg_ok(t[1])
     if k == "field" and t[2] in ("0", "1") and t[1][0] == "bin":
@@ -925,11 +971,47 @@ def load_table():
     return {"%s|%s|%s" % (r["fn"], r["kind"], r["shape"]): r for r in rows}
 
 
+def rule_prefix_index(f, site):
+    """P0-prefix: `a[b.len()]` / `a[b.len()..]` / `a[b.len() + 1..]` where the site is dominated by
+    `a.starts_with(b)` (so b.len() <= a.len()) and, for the element access and the `+ 1` form, by
+    `a.len() != b.len()` (so b.len() < a.len())."""
+    parts = site.shape.split(" , ", 1)
+    if len(parts) != 2:
+        return None
+    A = B = None
+    strict = True
+    if site.kind == "assert:BoundsCheck":
+        m = re.match(r"^len\((.*)\)$", parts[0])
+        n = re.match(r"^(?:str::|slice::)?len\((.*)\)$", parts[1])
+        if m and n:
+            A, B = m.group(1), n.group(1)
+    elif site.kind == "call:index":
+        A = parts[0]
+        n = re.match(r"^ops::RangeFrom::RangeFrom\{start: AddWithOverflow\((?:str::|slice::)?len\((.*)\), 1\)\.0\}$", parts[1])
+        if n:
+            B = n.group(1)
+        else:
+            n = re.match(r"^ops::RangeFrom::RangeFrom\{start: (?:str::|slice::)?len\((.*)\)\}$", parts[1])
+            if n:
+                B, strict = n.group(1), False
+    if A is None or B is None:
+        return None
+    g = set(site_guards(f, site))
+    A2 = re.sub(r"^str::as_bytes\((.*)\)$", r"\1", A)
+    pre = any("%s::starts_with(%s, %s)" % (ns, a, B) in g for ns in ("str", "slice") for a in (A, A2))
+    ne = any(x in g for a in (A, A2) for x in ("str::len(%s) != str::len(%s)" % (B, a), "str::len(%s) != str::len(%s)" % (a, B),
+                                               "slice::len(%s) != slice::len(%s)" % (B, a), "slice::len(%s) != slice::len(%s)" % (a, B)))
+    if pre and (ne or not strict):
+        return "dominated by starts_with(a, b)%s: b.len()%s is within a" % (" and a.len() != b.len()" if strict else "", " (+1)" if strict else "")
+    return None
+
+
 RULES = [("P0-const", lambda f, s, env: rule_const(s)),
          ("P0-arg", lambda f, s, env: rule_arg_const(s)),
          ("P0-len", lambda f, s, env: rule_len_arith(s)),
          ("P0-layout", lambda f, s, env: rule_layout(f, s)),
          ("P0-split", lambda f, s, env: rule_find_split(f, s)),
+         ("P0-prefix", lambda f, s, env: rule_prefix_index(f, s)),
          ("P1-redecode", lambda f, s, env: rule_redecode(f, s, env["ber"], env["memo"])),
          ("P0-absint", lambda f, s, env: rule_absint(f, s))]
 
@@ -1106,6 +1188,7 @@ def run(ctx):
             nalloc += 1
             args = K.arg_terms(c)
             size = args[-1] if c.name in ("with_capacity", "repeat", "with_capacity_in") else (args[1] if len(args) > 1 else None)
+            _VAR_BODY[0] = b
             ok = size is not None and alloc_arg_ok(size)
             fn = root_fn(f, n)
             why_ = "derives from buffer lengths and constants only"
